@@ -200,7 +200,7 @@ MMIORegion::MMIORegion(MemoryInterfaceUnit& miu, ICU& icu, Apbp& apbp_from_cpu, 
     // This register is a mirror of CPU side register DSP_PSTS
     impl->cells[0x0D8] = Cell::BitFieldCell({
         BitFieldSlot{
-            9, 1, {}, [&apbp_from_cpu]() -> u16 { return apbp_from_cpu.IsSemaphoreSignaled(); }},
+            9, 1, {}, [&apbp_from_dsp]() -> u16 { return apbp_from_dsp.IsSemaphoreSignaled(); }},
         BitFieldSlot{10, 1, {}, [&apbp_from_dsp]() -> u16 { return apbp_from_dsp.IsDataReady(0); }},
         BitFieldSlot{11, 1, {}, [&apbp_from_dsp]() -> u16 { return apbp_from_dsp.IsDataReady(1); }},
         BitFieldSlot{12, 1, {}, [&apbp_from_dsp]() -> u16 { return apbp_from_dsp.IsDataReady(2); }},
